@@ -235,8 +235,14 @@ func dirReadFailsAfterCancel(c *ctx, r Rng) {
 // dirCloseWithBackedUpPipeline: more candidate files than the pipeline holds in flight, a consumer that reads
 // nothing: Close (or cancel) must still return, and everything must be released.
 func dirCloseWithBackedUpPipeline(c *ctx, r Rng) {
-	for i := 0; i < 3*c.scale; i++ {
-		env, _ := dirPop(pick(r, []int{1, 1, 2}), 60, 1, 1)
+	for i := 0; i < 4*c.scale; i++ {
+		// many candidate files, or one file with many candidate blocks: either stage's dispatch can be the one
+		// that is blocked when Close arrives
+		nfiles, per, parts := 60, 1, 1
+		if i%2 == 1 {
+			nfiles, per, parts = 1, 96, 96
+		}
+		env, _ := dirPop(pick(r, []int{1, 1, 2}), nfiles, per, parts)
 		env.Meta.(*FaultMeta).yieldGate = true
 		eng := freshOver(env, pick(r, []string{"never", "started"}))
 		base := runtime.NumGoroutine()
@@ -259,7 +265,10 @@ func dirCloseWithBackedUpPipeline(c *ctx, r Rng) {
 			}
 		}
 		yields := env.Data.CountCalls("yield")
-		useCancel := r.Chance(0.3)
+		if i%2 == 1 {
+			res.Next() // one row consumed, then the consumer stops
+		}
+		useCancel := i%4 == 2
 		closed := make(chan struct{})
 		go func() {
 			if useCancel {
@@ -270,13 +279,13 @@ func dirCloseWithBackedUpPipeline(c *ctx, r Rng) {
 			res.Close()
 			close(closed)
 		}()
-		replay := map[string]any{"files": 60, "yielded_before_close": yields, "MaxQueryConcurrency": env.Cfg.MaxQueryConcurrency, "terminated_by": map[bool]string{true: "cancel", false: "Close"}[useCancel]}
+		replay := map[string]any{"files": nfiles, "blocks_per_file": parts, "yielded_before_close": yields, "MaxQueryConcurrency": env.Cfg.MaxQueryConcurrency, "terminated_by": map[bool]string{true: "cancel", false: "Close"}[useCancel]}
 		c.r.Case(true, fmt.Sprint("backed-up-close", i))
 		c.r.Hit("directed.backed-up-close")
 		select {
 		case <-closed:
 		case <-time.After(5 * time.Second):
-			c.r.Add(Finding{Kind: "violation", Check: "close-hangs", Detail: fmt.Sprintf("Close did not return within 5s: the consumer had read nothing, %d of 60 candidate files had been handed to the pipeline", yields), Replay: replay})
+			c.r.Add(Finding{Kind: "violation", Check: "close-hangs", Detail: fmt.Sprintf("Close did not return within 5s: the consumer had stopped reading, %d of %d candidate files (%d blocks each) had been handed to the pipeline", yields, nfiles, parts), Replay: replay})
 			cancel()
 			select {
 			case <-closed:
